@@ -3,6 +3,7 @@ package main
 import (
 	"fmt"
 	"go/token"
+	"go/types"
 	"strings"
 
 	"golang.org/x/tools/go/ssa"
@@ -400,6 +401,41 @@ func checkC13(c *Ctx) {
 		}
 	}
 
+	// C13.9 a mutex guards nothing once it is copied: a method with a value receiver (or any load of a whole processor
+	// value) copies selectorMutex with whatever state it has at that instant - copied while a reload holds the write
+	// lock, the copy stays write-locked forever and the request that took it never returns
+	r.Rule("C13.9", "no value of a registrar type that contains a mutex is copied (value receivers, whole-struct loads)", 1)
+	{
+		nBad, nFn := 0, 0
+		for _, f := range c.funcsOfPkgs("pkg/regserver/regprocessor", "pkg/regserver/apiregserver", "pkg/regserver/dnsregserver") {
+			if f.Blocks == nil || strings.Contains(r.posStr(f.Pos()), "_test") {
+				continue
+			}
+			nFn++
+			for _, prm := range f.Params {
+				if _, isPtr := prm.Type().Underlying().(*types.Pointer); !isPtr && containsLock(prm.Type(), 0) {
+					nBad++
+					r.Bad("C13.9", fnName(f)+": parameter / receiver "+prm.Name()+" of type "+typeShort(prm.Type())+" is passed by value", f.Pos(), fnName(f),
+						"every call copies a struct that contains a mutex: a copy taken while a reload holds the selector write lock is write-locked forever, and the request that locks the copy never completes")
+				}
+			}
+			eachInstr(f, func(in ssa.Instruction) {
+				if u, ok := in.(*ssa.UnOp); ok && u.Op == token.MUL {
+					if _, isStruct := u.Type().Underlying().(*types.Struct); isStruct && containsLock(u.Type(), 0) {
+						if _, isAlloc := u.X.(*ssa.Alloc); isAlloc {
+							return // composite literal being built
+						}
+						nBad++
+						r.Bad("C13.9", fnName(f)+": copies "+firstN(pathOf(u.X), 40)+" (a "+typeShort(u.Type())+")", in.Pos(), fnName(f), "a struct that contains a mutex is copied")
+					}
+				}
+			})
+		}
+		if nBad == 0 {
+			r.OK("C13.9", "no registrar value containing a mutex is copied", token.NoPos, fmt.Sprintf("%d function(s) scanned: pointer receivers only, no whole-struct load", nFn))
+		}
+	}
+
 	// C13.7 requests run their selections on the snapshot with no lock held: selection only reads the selector (a lazily
 	// filled memo inside the loaded configuration is written by the first requests after every reload, concurrently)
 	checkSelectionPurity(c, "C13.7", "pkg/phantoms")
@@ -589,4 +625,25 @@ func recvFieldBase(v ssa.Value) ssa.Value {
 		}
 	}
 	return v
+}
+
+// containsLock: t is, or (transitively, by value) contains, a sync.Mutex / sync.RWMutex.
+func containsLock(t types.Type, depth int) bool {
+	if depth > 4 {
+		return false
+	}
+	if n, ok := t.(*types.Named); ok && n.Obj().Pkg() != nil && n.Obj().Pkg().Path() == "sync" && (n.Obj().Name() == "Mutex" || n.Obj().Name() == "RWMutex") {
+		return true
+	}
+	switch u := t.Underlying().(type) {
+	case *types.Struct:
+		for i := 0; i < u.NumFields(); i++ {
+			if containsLock(u.Field(i).Type(), depth+1) {
+				return true
+			}
+		}
+	case *types.Array:
+		return containsLock(u.Elem(), depth+1)
+	}
+	return false
 }
